@@ -304,6 +304,19 @@ class Fn:
                 if kind is None or e['k'] == kind:
                     yield e
 
+    def stores(self):
+        """Assignments in the wide sense: `asg` events and declarations with an initialiser (as a
+        synthetic `=` assignment at the same position), so that `int x = f();` and `int x; x = f();`
+        look the same to a rule."""
+        for bid in sorted(self.blocks, reverse=True):
+            for e in self.blocks[bid]['ev']:
+                if e['k'] == 'asg':
+                    yield e
+                elif e['k'] == 'decl' and e.get('init') is not None:
+                    yield {'k': 'asg', 'op': '=', 'l': {'k': 'var', 'n': e['n'], 'vk': 'local', 'ty': e.get('ty'), 'tk': e.get('tk')},
+                           'r': e['init'], 'line': e.get('line'), 'src': e.get('src'), '_b': e['_b'], '_i': e['_i'], '_fn': self,
+                           'from_decl': True}
+
     def calls(self, name=None):
         for e in self.events('call'):
             if name is None or e.get('name') == name:
@@ -403,16 +416,34 @@ class Fn:
                                 if any((kind == 'var' and mentions_var(d, n)) or
                                        (kind == 'mem' and mentions_field(d, n)) for kind, n in w):
                                     facts.discard(it)
+                if sensitive and e['k'] in ('asg', 'decl') and (e['k'] == 'decl' or e.get('op') == '='):
+                    # `x = c ? a : b` where c was decided earlier on this path: x gets that arm
+                    rr = e.get('r') if e['k'] == 'asg' else e.get('init')
+                    r0 = rr
+                    while isinstance(r0, dict) and r0.get('k') == 'cast':
+                        r0 = r0.get('e')
+                    if isinstance(r0, dict) and r0.get('k') == 'cond':
+                        ca, cp = norm_cond(self.prog, r0['c'])
+                        ck = dstr(ca)
+                        arm = r0['t'] if (ck, cp) in facts else r0['f'] if (ck, not cp) in facts else None
+                        if arm is not None and _path_const(arm) is not None:
+                            if e['k'] == 'asg' and strip(e['l']).get('k') in ('var', 'mem'):
+                                lk = dstr(strip(e['l']))
+                                constdesc[lk] = strip(e['l'])
+                                facts.add((('const', lk), _path_const(arm)))
+                            elif e['k'] == 'decl':
+                                constdesc[e['n']] = {'k': 'var', 'n': e['n'], 'vk': 'local'}
+                                facts.add((('const', e['n']), _path_const(arm)))
                 if sensitive and e['k'] == 'asg' and e['op'] == '=' and \
-                        const_value(e.get('r')) is not None and \
+                        _path_const(e.get('r')) is not None and \
                         strip(e['l']).get('k') in ('var', 'mem'):
                     lk = dstr(strip(e['l']))
                     constdesc[lk] = strip(e['l'])
-                    facts.add((('const', lk), const_value(e['r'])))
+                    facts.add((('const', lk), _path_const(e['r'])))
                 if sensitive and e['k'] == 'decl' and e.get('init') is not None and \
-                        const_value(e['init']) is not None and not e.get('static'):
+                        _path_const(e['init']) is not None and not e.get('static'):
                     constdesc[e['n']] = {'k': 'var', 'n': e['n'], 'vk': 'local'}
-                    facts.add((('const', e['n']), const_value(e['init'])))
+                    facts.add((('const', e['n']), _path_const(e['init'])))
                 if require is not None and require not in facts:
                     return 'blocked', e
             return 'through', None
@@ -583,6 +614,35 @@ class Fn:
         return self.reachable_from(self.entry) | {self.entry}
 
 
+def store_arms(fn, e):
+    """The values a store can write with the extra guard facts of each: `x = c ? a : b` yields
+    [(a, {key(c): (True, c)}), (b, {key(c): (False, c)})]; any other store [(r, {})]."""
+    r = e.get('r') if e.get('k') != 'decl' else e.get('init')
+    r0 = r
+    while isinstance(r0, dict) and r0.get('k') == 'cast':
+        r0 = r0.get('e')
+    if isinstance(r0, dict) and r0.get('k') == 'cond':
+        atom, pol = norm_cond(fn.prog, r0['c'])
+        k = dstr(atom)
+        return [(r0['t'], {k: (pol, atom)}), (r0['f'], {k: (not pol, atom)})]
+    return [(r, {})]
+
+
+def _path_const(d):
+    """Constant value of an assigned expression for path-sensitive search: integers / bools / enums,
+    null (0) and string literals (a non-null pointer: 1, only ever tested for truth or against null)."""
+    v = const_value(d)
+    if v is not None:
+        return v
+    sd = strip(d)
+    if isinstance(sd, dict):
+        if sd.get('k') in ('null', 'nullptr'):
+            return 0
+        if sd.get('k') == 'str':
+            return 1
+    return None
+
+
 def _split_composite(prog, atom, pol, depth=0):
     """`a && b` known true yields a and b; `a || b` known false yields !a and !b (recursively)."""
     a = strip(atom)
@@ -655,6 +715,15 @@ def norm_cond(prog, d, depth=0):
             continue
         if k == 'un' and d['op'] == '!':
             d = d['e']
+            pol = not pol
+            continue
+        if k == 'call' and (d.get('op') == '!=' or basename(d.get('name') or '').startswith('operator!=')) and \
+                len((d.get('args') or [])) + (1 if d.get('recv') is not None else 0) == 2:
+            # overloaded inequality (std::string, StringPiece, iterators): `a != b` is `!(a == b)`
+            nm = d.get('name') or ''
+            d = dict(d, name=nm.replace('operator!=', 'operator=='), op='==')
+            if d.get('fn'):
+                d['fn'] = d['fn'].replace('operator!=', 'operator==')
             pol = not pol
             continue
         if k == 'bin' and d['op'] in ('==', '!='):
